@@ -293,6 +293,10 @@ def replay_concrete(task, atoms: Dict[str, bool], fl_float: Dict[str, float]):
     op = make_operator(world, task)
     if task["mode"] == "applicable":
         try:
+            if task.get("after_other_state"):
+                of = task.get("other_fluents") or {f: v + 3.5 for f, v in fl_float.items()}
+                other, _ = concrete_state(world, prep, atoms, {f: of.get(f, 0.0) for f in prep.all_fluents})
+                op.is_applicable(other)
             got = bool(op.is_applicable(state))
             out["observed"] = {"applicable": got}
             out["disagree"] = bool(exp_defined) and got != exp_pre
@@ -379,6 +383,9 @@ def run_task(task) -> dict:
             # assumptions first (they are not retroactive)
             if mode == "applicable":
                 ok = ctx.assume(cs.defined)
+                if ok and task.get("after_other_state"):
+                    # the other state, too, defines every fluent and divides by nothing that is zero
+                    ok = ctx.assume(z3.substitute(cs.defined, *[(prep.vars.fluent(f), z3.Real("w2" + f)) for f in prep.all_fluents]))
             else:
                 ok = ctx.assume(z3.And(cs.defined, cs.pre, cs.consistent))
             if not ok:
@@ -390,6 +397,11 @@ def run_task(task) -> dict:
             state, keys = build_state(ctx, world, prep)
             op = make_operator(world, task)
             if mode == "applicable":
+                if task.get("after_other_state"):
+                    # the same operator object has answered a query about another state before: same facts, other values
+                    other, _ = world.make_state({a: SymBool(prep.vars.atom(a)) for a in prep.sym_atoms},
+                                                {f: SymReal(z3.Real("w2" + f)) for f in prep.all_fluents})
+                    op.is_applicable(other)
                 r = op.is_applicable(state)
                 return ("applicable", bool(r), None, None)
             impose_order_grounded(op, task.get("order"))
@@ -490,8 +502,13 @@ def run_task(task) -> dict:
                 return
             atoms, fls = model_assignment(model, prep)
             fl_float = {f: lib.to_float(v) for f, v in fls.items()}
+            rtask = task
+            if task.get("after_other_state"):
+                from symx.core import zval
+                rtask = dict(task, other_fluents={f: lib.to_float(zval(model, z3.Real("w2" + f))) for f in prep.all_fluents})
+                res["other_fluents"] = rtask["other_fluents"]
             try:
-                rp = replay_concrete(task, atoms, fl_float)
+                rp = replay_concrete(rtask, atoms, fl_float)
             except Exception as e:  # noqa
                 rp = {"disagree": False, "replay_error": f"{type(e).__name__}: {e}"}
             if rp.get("disagree"):
